@@ -2,7 +2,10 @@
 (* Behaviour generation for C11: every behaviour of Adts (SetASC / Encode /    *)
 (* Write / Decode on one ADTS object and one byte stream) of Depth steps, or   *)
 (* seeded random ones with -simulate, emitted with the specification's          *)
-(* abstract state after every step.                                             *)
+(* abstract state after every step.  Gen_AdtsBeh.pay.*: raw blocks with content *)
+(* (a complete frame, Encode(Encode(x)), header-like bytes).  Gen_AdtsBeh.long:  *)
+(* maximum-size frames written until the stream is longer than 64 KiB, then      *)
+(* taken off one at a time.                                                      *)
 EXTENDS Adts, TLC, Json
 
 CONSTANT Depth
@@ -12,7 +15,7 @@ bvars == <<vars, hist>>
 BAuxAll == [priv |-> 1, orig |-> 1, home |-> 1, cib |-> 1, cis |-> 1, bf |-> 0]
 BFr(id, prot, profile, sfi, chan, n, crc, aux) ==
   [id |-> id, prot |-> prot, profile |-> profile, sfi |-> sfi, chan |-> chan,
-   n |-> n, fid |-> 0, crc |-> crc, aux |-> aux]
+   n |-> n, fid |-> 0, crc |-> crc, aux |-> aux, pre |-> <<>>]
 
 \* quick: LC 44.1k stereo, HEv2 7.35k 7.1 (trailing bits set), rejected object type 4
 BAscQuick == { AscBytes(2, 4, 2), <<AscBytes(29, 12, 7)[1], AscBytes(29, 12, 7)[2] + 7>>, AscBytes(4, 4, 2) }
@@ -27,20 +30,41 @@ BFramesThorough == BFramesQuick \cup
                   BFr(0, 1, 0, 5, 3, 249, 0, BAuxAll),        \* frame length 256
                   BFr(1, 0, 1, 9, 4, 505, 65521, Aux0) }
 
+\* payload classes: a smaller alphabet, raw blocks with content
+BAscPay == { AscBytes(2, 4, 2), AscBytes(29, 12, 7) }
+BFramesPay == { BFr(1, 0, 1, 4, 2, 5, 65521, Aux0),
+                [BFr(0, 1, 0, 3, 1, 9, 0, BAuxAll) EXCEPT !.pre = PreFrame(BFr(0, 1, 1, 4, 2, 2, 0, Aux0))] }
+BPayFrames == { BFr(0, 1, 1, 4, 2, 3, 0, Aux0),                \* LC 44.1k stereo: what AscBytes(2, 4, 2) muxes
+                BFr(1, 0, 0, 3, 1, 249, 65521, BAuxAll),        \* CRC, frame length 258
+                [BFr(1, 1, 2, 11, 6, 10, 0, Aux0) EXCEPT !.pre = PreFrame(BFr(0, 1, 1, 12, 7, 3, 0, Aux0))] }
+BPayHeads == { <<255, 241>>, <<255, 249, 80, 128, 1, 31, 252>> } \* a sync word; the header of an 8-byte frame
+
+\* long streams: frames of the maximum size
+BAscLong == { AscBytes(2, 4, 2) }
+BFramesLong == { BFr(1, 0, 0, 3, 6, 8182, 4660, Aux0), BFr(0, 1, 2, 11, 5, 8184, 0, BAuxAll) }
+\* every frame is written before the first is taken
+WriteFirst == (Len(pend') < Len(pend)) => nw = MaxFrames
+
 \* abstract state after the step
 St == [res |-> res', asc |-> <<asc'.obj, asc'.sfi, asc'.chan>>, profile |-> ObjProfile(asc'.obj),
        wl |-> Len(wire'), np |-> Len(pend')]
 Rec(r) == hist' = Append(hist, r @@ St)
+
+\* the frame Encode was asked for is the last pending one
+RecEnc == LET f == pend'[Len(pend')] IN
+  Rec([op |-> "encode", raw |-> [n |-> f.n, id |-> f.fid], hf |-> Len(HeadLD(f)), ld |-> FrameLD(f), mask |-> NamedMask])
 
 BInit == Init /\ hist = <<>>
 BNext ==
   /\ Len(hist) < Depth
   /\ \/ \E b \in AscInputs : SetASC(b) /\ Rec([op |-> "setasc", b |-> b])
      \/ \E n \in RawLens, id \in LibIds :
-          Encode(n, id) /\ Rec([op |-> "encode", raw |-> [n |-> n, id |-> nw + 1],
-                                ld |-> FrameLD(pend'[Len(pend')]), mask |-> NamedMask])
+          Encode(n, id) /\ RecEnc
+     \/ \E g \in PayFrames, id \in LibIds : EncodeFrame(g, id) /\ RecEnc
+     \/ \E n \in TwiceLens, id \in LibIds : EncodeTwice(n, id) /\ RecEnc
+     \/ \E n \in RawLens, id \in LibIds, h \in PayHeads : EncodeHead(n, id, h) /\ RecEnc
      \/ \E f \in Frames :
-          Write(f) /\ Rec([op |-> "write", prot |-> f.prot, ld |-> FrameLD(pend'[Len(pend')])])
+          Write(f) /\ Rec([op |-> "write", prot |-> f.prot, hf |-> Len(HeadLD(f)), ld |-> FrameLD(pend'[Len(pend')])])
      \/ Decode /\ Rec([op |-> "decode", ok |-> got'[1].ok, prot |-> last'[1].prot,
                        raw |-> [n |-> Len(got'[1].raw), id |-> last'[1].fid],
                        hz |-> Hz(last'[1].sfi)])
